@@ -8,11 +8,11 @@ import random
 from lib import tlc as tlcmod
 from lib.tlc import RawTla
 
-BASE = {"norad": 25544, "desig": 1, "dyy": 98, "dlaunch": 67, "eyy": 18, "edoy": 124, "efrac": 55610684,
+BASE = {"norad": 25544, "cls": 1, "desig": 1, "dyy": 98, "dlaunch": 67, "eyy": 18, "edoy": 124, "efrac": 55610684,
         "ndsgn": 1, "nd": 1524, "nddsgn": 1, "nddmant": 0, "nddesgn": -1, "nddexp": 0,
         "bssgn": 1, "bsmant": 30197, "bsesgn": -1, "bsexp": 4, "elnb": 999,
         "incl": 516421, "raan": 2362139, "ecc": 3381, "argp": 478509, "ma": 476767, "mm": 1554198229, "rev": 11173}
-CORNER = {"norad": {0, 5, 99999, 101}, "desig": {0, 1, 2, 3, 4}, "dyy": {57, 99, 0, 56}, "dlaunch": {1, 999, 10},
+CORNER = {"norad": {0, 5, 99999, 101}, "cls": {1, 2, 3}, "desig": {0, 1, 2, 3, 4}, "dyy": {57, 99, 0, 56}, "dlaunch": {1, 999, 10},
           "eyy": {57, 99, 0, 56, 16}, "edoy": {1, 365, 59, 60}, "efrac": {0, 1, 99999999, 50000000},
           "ndsgn": {-1, 1}, "nd": {0, 1, 2182, 99999999}, "nddsgn": {-1, 1}, "nddmant": {0, 10000, 99999, 12345},
           "nddesgn": {-1, 1}, "nddexp": {0, 1, 9, 5}, "bssgn": {-1, 1}, "bsmant": {0, 10000, 99999, 11606},
